@@ -46,7 +46,8 @@ PatsFor(cfg, n, P) == IF CtorStorage(cfg.ctor, n, cfg.ml, cfg.mu).kind = "I" THE
 Sc(n, cfg, pat, op, i, j, s, b, bpat) ==
   [n |-> n, ctor |-> cfg.ctor, ml |-> cfg.ml, mu |-> cfg.mu, pat |-> pat, op |-> op, i |-> i, j |-> j, s |-> s,
    bkind |-> b.kind, bml |-> b.ml, bmu |-> b.mu, bpat |-> bpat,
-   op2 |-> "none", i2 |-> 0, j2 |-> 0, s2 |-> 0, ckind |-> "F", cml |-> 0, cmu |-> 0, cpat |-> "zero"]
+   op2 |-> "none", i2 |-> 0, j2 |-> 0, s2 |-> 0, ckind |-> "F", cml |-> 0, cmu |-> 0, cpat |-> "zero", pf |-> 0]
+Pf(base, v) == [base EXCEPT !.pf = v]
 NoB == [kind |-> "F", ml |-> 0, mu |-> 0]
 
 (* ---- two-operation sequences: A --op--> R --op2--> R2 --------------------- *)
@@ -72,6 +73,14 @@ ShapeCfg(sh) == [ctor |-> BCtor(sh.kind), ml |-> sh.ml, mu |-> sh.mu]
 Sc2(base, op2, i2, j2, s2, c, cpat) ==
   [base EXCEPT !.op2 = op2, !.i2 = i2, !.j2 = j2, !.s2 = s2, !.ckind = c.kind, !.cml = c.ml, !.cmu = c.mu, !.cpat = cpat]
 
+\* the second operation of a sequence whose first part is `base`
+Seconds(n, base) ==
+  \/ sc = Sc2(base, "is_identity", 0, 0, 0, NoB, "zero")
+  \/ \E i2 \in 0..n - 1 : \E j2 \in 0..n - 1 : sc = Sc2(base, "write", i2, j2, 0, NoB, "zero")
+  \/ \E op2 \in ScalarOps : \E s2 \in TwoScal2 : sc = Sc2(base, op2, 0, 0, s2, NoB, "zero")
+  \/ \E op2 \in TwoBin2 : \E c \in TwoCShapes(n) :
+       sc = Sc2(base, op2, 0, 0, 0, c, IF c.kind = "I" THEN "zero" ELSE "sq")
+
 InitTwo ==
   \E n \in TwoSizes : \E ash \in TwoShapes(n) :
     LET cfg == ShapeCfg(ash)
@@ -79,12 +88,29 @@ InitTwo ==
         Firsts == {Sc(n, cfg, pat, op, 0, 0, s, NoB, "zero") : op \in ScalarOps, s \in Scalars}
                   \cup {Sc(n, cfg, pat, op, 0, 0, 0, b, IF b.kind = "I" THEN "zero" ELSE "sq") :
                           op \in TwoBin1(n), b \in TwoBShapes(n)}
-    IN \E base \in Firsts :
-         \/ sc = Sc2(base, "is_identity", 0, 0, 0, NoB, "zero")
-         \/ \E i2 \in 0..n - 1 : \E j2 \in 0..n - 1 : sc = Sc2(base, "write", i2, j2, 0, NoB, "zero")
-         \/ \E op2 \in ScalarOps : \E s2 \in TwoScal2 : sc = Sc2(base, op2, 0, 0, s2, NoB, "zero")
-         \/ \E op2 \in TwoBin2 : \E c \in TwoCShapes(n) :
-              sc = Sc2(base, op2, 0, 0, 0, c, IF c.kind = "I" THEN "zero" ELSE "sq")
+    IN \E base \in Firsts : Seconds(n, base)
+
+(* ---- prefilled operands: fill(pf) on the whole buffer, then every writable entry written ---------------- *)
+\* observers of a prefilled A (storage Full or Banded): read-all / is_identity for every full pattern, one more write at
+\* every (i,j), every scalar op, every binary op with every storage of a (prefilled) second operand
+PfVals == {5, TINY}
+PfScalars == {0, 2, TINY}
+InitPrefilled ==
+  \E n \in 1..MaxN : \E cfg \in CtorCfgs(n) :
+    /\ CtorStorage(cfg.ctor, n, cfg.ml, cfg.mu).kind # "I"
+    /\ \/ \E pat \in {"zero", "eye", "dist"} : \E op \in {"read", "is_identity"} : \E v \in PfVals :
+            sc = Pf(Sc(n, cfg, pat, op, 0, 0, 0, NoB, "zero"), v)
+       \/ \E i \in 0..n - 1 : \E j \in 0..n - 1 : sc = Pf(Sc(n, cfg, "dist", "write", i, j, 0, NoB, "zero"), 5)
+       \/ \E pat \in {"eye", "dist"} : \E op \in ScalarOps : \E s \in PfScalars :
+            sc = Pf(Sc(n, cfg, pat, op, 0, 0, s, NoB, "zero"), 5)
+       \/ \E op \in BinOps : \E b \in BShapes(n) :
+            sc = Pf(Sc(n, cfg, "eye", op, 0, 0, 0, b, IF b.kind = "I" THEN "zero" ELSE "sq"), 5)
+\* two-operation sequences on a prefilled Banded identity pattern: the first result keeps the band buffer (corner cells
+\* scaled), the second operation observes it
+InitTwoPrefilled ==
+  \E n \in TwoSizes : \E ash \in {sh \in TwoShapes(n) : sh.kind = "B"} :
+    \E op \in {"component_mul", "component_mul_mut"} : \E s \in {1, 2} :
+      Seconds(n, Pf(Sc(n, ShapeCfg(ash), "eye", op, 0, 0, s, NoB, "zero"), 5))
 
 InitScenario ==
   \E n \in 1..MaxN : \E cfg \in CtorCfgs(n) :
@@ -102,7 +128,7 @@ InitScenario ==
 
 NoRes == [panic |-> FALSE, mat |-> NoMat, val |-> FALSE]
 Init ==
-  /\ (InitScenario \/ InitTwo)
+  /\ (InitScenario \/ InitTwo \/ InitPrefilled \/ InitTwoPrefilled)
   /\ pc = "ctorA"
   /\ A = NoMat /\ B = NoMat /\ C = NoMat /\ R = NoRes /\ R2 = NoRes
   /\ dA = <<>> /\ dB = <<>> /\ dC = <<>> /\ dR = <<>>
@@ -114,6 +140,16 @@ CtorA ==
        /\ A' = r.mat
        /\ dA' = ExpectA0(sc)
        /\ cok' = (cok /\ ClauseCtorA(sc, r.panic, ReadAll(r.mat)) /\ Shape(r.mat) = StA(sc))
+  /\ pc' = IF HasPf(sc) THEN "prefillA" ELSE "fillA"
+  /\ UNCHANGED <<sc, B, C, R, R2, dB, dC, dR>>
+
+\* fill(pf): no C17 clause; the model's own view (FillMeaning) must agree with its layout
+PrefillA ==
+  /\ pc = "prefillA"
+  /\ LET r == StepPrefillA(sc, A) IN
+       /\ A' = r.mat
+       /\ dA' = FillMeaning(StA(sc), dA, sc.pf)
+       /\ cok' = (cok /\ ~r.panic /\ ReadAll(r.mat) = FillMeaning(StA(sc), dA, sc.pf))
   /\ pc' = "fillA"
   /\ UNCHANGED <<sc, B, C, R, R2, dB, dC, dR>>
 
@@ -132,6 +168,15 @@ CtorB ==
        /\ B' = r.mat
        /\ dB' = CtorMeaning(BCtor(sc.bkind), sc.n, <<>>)
        /\ cok' = (cok /\ ClauseCtorB(sc, r.panic, ReadAll(r.mat)) /\ Shape(r.mat) = StB(sc))
+  /\ pc' = IF HasPfB(sc) THEN "prefillB" ELSE "fillB"
+  /\ UNCHANGED <<sc, A, C, R, R2, dA, dC, dR>>
+
+PrefillB ==
+  /\ pc = "prefillB"
+  /\ LET r == StepPrefillB(sc, B) IN
+       /\ B' = r.mat
+       /\ dB' = FillMeaning(StB(sc), dB, sc.pf)
+       /\ cok' = (cok /\ ~r.panic /\ ReadAll(r.mat) = FillMeaning(StB(sc), dB, sc.pf))
   /\ pc' = "fillB"
   /\ UNCHANGED <<sc, A, C, R, R2, dA, dC, dR>>
 
@@ -187,7 +232,7 @@ Op2 ==
   /\ pc' = "done"
   /\ UNCHANGED <<sc, A, B, C, R, dA, dB, dC, dR>>
 
-Next == CtorA \/ FillA \/ CtorB \/ FillB \/ Op \/ CtorC \/ FillC \/ Op2
+Next == CtorA \/ PrefillA \/ FillA \/ CtorB \/ PrefillB \/ FillB \/ Op \/ CtorC \/ FillC \/ Op2
 
 Spec == Init /\ [][Next]_vars
 
@@ -196,13 +241,13 @@ Contract == cok
 
 (* dense meaning tracked by the contract = what the Level-B model reads back *)
 Abstraction ==
-  /\ pc \in {"fillA", "ctorB", "fillB", "op"} => ReadAll(A) = dA
-  /\ pc \in {"fillB", "op"} /\ IsBin(sc) => ReadAll(B) = dB
+  /\ pc \in {"prefillA", "fillA", "ctorB", "prefillB", "fillB", "op"} => ReadAll(A) = dA
+  /\ pc \in {"prefillB", "fillB", "op"} /\ IsBin(sc) => ReadAll(B) = dB
   /\ pc \in {"ctorC", "fillC", "op2"} => ReadAll(R.mat) = dR
   /\ pc = "op2" /\ IsBin2(sc) => ReadAll(C) = dC
 
 TypeOK ==
-  /\ pc \in {"ctorA", "fillA", "ctorB", "fillB", "op", "ctorC", "fillC", "op2", "done"}
+  /\ pc \in {"ctorA", "prefillA", "fillA", "ctorB", "prefillB", "fillB", "op", "ctorC", "fillC", "op2", "done"}
   /\ sc.op \in Ops /\ sc.ctor \in Ctors /\ sc.pat \in Pats /\ sc.bpat \in Pats
   /\ sc.op2 \in Ops2 /\ sc.cpat \in Pats /\ (HasOp2(sc) => sc.op \in BinOps \cup ScalarOps)
 
